@@ -216,6 +216,10 @@ func OnCall(fn string, hook interface{})   {}
 func RunSpawned()                          { time.Sleep(50 * time.Millisecond) }
 func NumSpawned() uint64                   { return 0 }
 func Mark(v uint64)                        {}
+
+// AllocRep switches an allocator (a *alloc.Alloc) to representative mode: its k-th allocation returns 0
+// or base+k*stride (symbolic execution only; natively the real allocator runs).
+func AllocRep(a interface{}, base, stride uint64) {}
 func Watch(typ string)                     {}
 func Events() []Event                      { return nil }
 
